@@ -173,6 +173,11 @@ def space_api_cuts(make_elem):
             return make_elem(fr, self, VFresh(fr.st.fresh('elem')))
         if isinstance(inp, ip.Obj) and in_space(I, fr, inp, self):
             return inp
+        if hasattr(inp, 'wrapped_elem'):
+            # an array-like of matching shape / dtype (the caller's ndarray): wrapped WITHOUT copy (C17 contract of element(arr)) - the element shares its memory
+            if in_space(I, fr, inp.wrapped_elem, self):
+                return inp.wrapped_elem
+            raise ip.PyRaise(I.make_exc('TypeError', 'cannot convert to element'))
         if hasattr(inp, 'materialise'):
             # a real/imag *view* of another element is an element of the (real) space that shares memory
             e = inp.materialise()
@@ -201,6 +206,18 @@ def space_api_cuts(make_elem):
 
 # --------------------------------------------------------------------------
 # helpers for harnesses
+
+class ArrayLike(object):
+    """the caller's ndarray handed to an element operation: known through the element `space.element(arr)` wraps around it (shared memory)"""
+
+    def __init__(self, wrapped_elem):
+        self.wrapped_elem = wrapped_elem
+
+    def pv_getattr(self, I, fr, name):
+        if name == '__array_priority__':
+            return 0.0
+        raise ip.PyRaise(I.make_exc('AttributeError', 'numpy.ndarray object has no attribute %r' % name))
+
 
 ALIAS3 = [('x', 'y', 'o'), ('x', 'x', 'o'), ('o', 'y', 'o'), ('x', 'o', 'o'), ('o', 'o', 'o')]
 
